@@ -251,8 +251,9 @@ static void op_new(char kind)
 	held[id] = 1;
 	/* the destruction callback the property speaks of */
 	pending_id = 0;
-	if (wmode && (w_notok || json_object_get_type(o) == json_type_double))
-		id = 0; /* (a double's user-data slot may hold its retained text: no destructor token on doubles in world mode;
+	if (wmode && (w_notok || json_object_get_type(o) == json_type_double || vh_below(3) == 0))
+		id = 0; /* (a double's user-data slot may hold its retained text: no destructor token on doubles in world mode, and
+		         * none on one node in three, so that values can be copied by patches;
 		         * none at all when model histories are replayed - the bounded model's nodes carry none, and a node with
 		         * foreign user data cannot be copied by a patch) */
 	else if (id & 1)
@@ -1361,6 +1362,14 @@ static void w_patch(int a)
 			ft[0] = (int)vh_below(2);
 			fv[0] = ft[0] == 0 ? 1 + (int)vh_below(5) : (int)vh_below(4);
 			nf = 1;
+		}
+		if (vh_below(5) == 0)
+		{
+			/* a value copied onto its own location: the member / element there is REPLACED by (resp. gets in front of it) a
+			 * fresh copy - new nodes, the old value released */
+			memcpy(pt, ft, sizeof(int) * (size_t)nf);
+			memcpy(pv, fv, sizeof(int) * (size_t)nf);
+			np = nf;
 		}
 	}
 	w_patch_do(a, pop, pt, pv, np, ft, fv, nf, vals[vh_below(sizeof vals / sizeof *vals)]);
